@@ -127,6 +127,37 @@ def stress_docs():
     return res
 
 
+def shape_docs():
+    """requests and responses on the border of validity: every head form x every set of children.  Whatever
+    is accepted must still be a self-consistent catalog (a body for every request and response)."""
+    heads = ["", " any", " empty", " @t", " [@t]", " regex", " jsight"]
+    kids = {
+        "none": [],
+        "headers": ["Headers", "{", '  "h": "v"', "}"],
+        "body_any": ["Body any"],
+        "body_obj": ["Body", "{", '  "b": 1', "}"],
+        "body_regex": ["Body regex", "/ab+/"],
+        "inline_obj": ["{", '  "i": 1', "}"],
+        "inline_regex": ["/ab+/"],
+        "headers_body": ["Headers", "{", '  "h": "v"', "}", "Body any"],
+        "headers_inline": ["{", '  "i": 1', "}", "Headers", "{", '  "h": "v"', "}"],
+        "headers_ref": ["Headers", "@t"],
+        "two_headers_only": ["Headers", "{", '  "h": "v"', "}", "Description", "  text"],
+    }
+    res = []
+    pre = 'JSIGHT 0.3\nTYPE @t\n{\n  "id": 1\n}\n'
+    for h in heads:
+        for kn, kl in kids.items():
+            body = "".join("    " + x + "\n" for x in kl)
+            res.append(pre + "GET /a\n  201%s\n%s" % (h, body))
+            res.append(pre + "POST /a\n  Request%s\n%s  200 any\n" % (h, body))
+            res.append(pre + "URL /a\n  GET\n    200 any\n    404%s\n%s" % (h, body.replace("    ", "      ")))
+    for params in ("", "    Params\n    {}\n", "    Params\n      @t\n"):
+        for result in ("", "    Result\n    {}\n", "    Result any\n"):
+            res.append(pre + "URL /r\n  Protocol json-rpc-2.0\n  Method m\n" + params + result)
+    return res
+
+
 def mutate(data, rnd):
     b = bytearray(data)
     for _ in range(rnd.randrange(1, 4)):
@@ -190,7 +221,7 @@ def main(tier):
             cases.append(rel.case("g%d" % n, apidoc.render(m["doc"])[0]))
         except Exception:
             pass
-    for n, t in enumerate(stress_docs()):
+    for n, t in enumerate(stress_docs() + shape_docs()):
         cases.append({"id": "st%d" % n, "files": {"main.jst": b64(t.encode("latin1") if "\xff" in t else t.encode())}, "root": "main.jst"})
     obs = harness("run", cases)
     recs = []
